@@ -73,6 +73,26 @@ def run(chk):
                         'the output file is with-managed and entered before (closed after) the log writer',
                         f'the stream `{ast.unparse(arg) if arg is not None else None}` handed to the log writer is not a with-managed file '
                         'entered before the writer (closing brackets could be lost / written after close)')
+            # the stream IS the configured output file: what an abort leaves behind must be at the path the operator asked for
+            opens = [it for a in [wnode] + [x for x in ancestors(wnode) if isinstance(x, ast.With)] for it in a.items
+                     if isinstance(it.optional_vars, ast.Name) and isinstance(arg, ast.Name) and it.optional_vars.id == arg.id and isinstance(it.context_expr, ast.Call)]
+            if opens:
+                oc = opens[0].context_expr
+                pexpr = oc.args[0] if oc.args else None
+                defs = [n.value for n in ast.walk(run_fn) if isinstance(n, ast.Assign) and len(n.targets) == 1 and isinstance(n.targets[0], ast.Name)
+                        and isinstance(pexpr, ast.Name) and n.targets[0].id == pexpr.id]
+                ptxt = ast.unparse(defs[0]) if len(defs) == 1 else (ast.unparse(pexpr) if pexpr is not None else None)
+                chk.require(ptxt == 'self.output_file_path', 'C13.R1', repo.where(sm, oc), q_run, f'log stream opened on `{ptxt}`',
+                            'the log is written directly to the configured output file',
+                            f'the log is written to `{ptxt}`, not to `self.output_file_path`: after an abort the configured output file does not exist (or is a stale '
+                            f'earlier log), although the completed boards were written somewhere else')
+                movers = [n for n in ast.walk(run_fn) if isinstance(n, ast.Call) and ast.unparse(n.func) in ('os.replace', 'os.rename', 'shutil.move', 'shutil.copy', 'shutil.copyfile',
+                                                                                                            'os.remove', 'os.unlink')
+                          or (isinstance(n, ast.Call) and isinstance(n.func, ast.Attribute) and n.func.attr in ('rename', 'replace', 'unlink') and 'path' in ast.unparse(n.func.value).lower())]
+                chk.require(not movers, 'C13.R1', repo.where(sm, movers[0]) if movers else where, q_run, 'output file moved / removed in Server.run',
+                            'Server.run does not move, replace or delete log files',
+                            f'`{ast.unparse(movers[0])[:70] if movers else ""}`: the log reaches its final place only on the path through this call - an abort before it leaves '
+                            f'the configured output file missing or stale')
             # every use of the writer lies inside the with body
             if name:
                 outside = [n for n in ast.walk(run_fn) if isinstance(n, ast.Name) and n.id == name and isinstance(n.ctx, ast.Load)
